@@ -52,7 +52,8 @@ EXC_CLASSES = {
         TypeError, ValueError, UnicodeError, ZeroDivisionError, RuntimeError,
         OSError, AssertionError, StopIteration, CustomError, StrError,
         FileNotFoundError, TimeoutError, RecursionError, ArithmeticError,
-        NotImplementedError, KeyboardInterrupt, SystemExit, GeneratorExit)
+        NotImplementedError, KeyboardInterrupt, SystemExit, GeneratorExit,
+        Exception, Warning, UserWarning)
 }
 
 PURE_BUILTINS = ("len", "str", "int", "list", "sorted", "bool", "repr",
